@@ -802,7 +802,7 @@ private def exRender : Nat → String := fun a => String.ofList (List.replicate 
 private def exParse : String → Nat := fun s => s.length
 private theorem exParse_render (a : Nat) : exParse (exRender a) = a := by simp [exParse, exRender]
 private def exSig : List Nat := List.replicate 64 0 ++ [28]
-private def exV : SolVerifySig := solVerifySigs.headD ⟨"", [], [], "", [], "", ""⟩
+private def exV : SolVerifySig := solVerifySigs.headD ⟨"", [], "", [], "", [], "", ""⟩
 
 /-- the hypotheses of `accepted_signature_passes_contract_verifySig_partial` are satisfiable (a 65-byte signature with
 recovery byte 28 that `EthAddressFromSignature` accepts), and its conclusion is then the contract's `true` -/
